@@ -229,13 +229,32 @@ def build_ops(qops):
     return out
 
 
+def _ends(items, res, model):
+    """a result set also answers first / last / cardinality: they must agree with its iteration (a disagreement is put
+    into the returned observation, which then differs from the relational evaluation)"""
+    first = None if res.first is None else model.idx(res.first)
+    last = None if res.last is None else model.idx(res.last)
+    want = (items[0], items[-1]) if items else (None, None)
+    n = _x.cardinality(res)
+    if (first, last) != want or n != len(items) or len(res) != len(items):
+        return items + [Sym('first-last-cardinality-give'), [first, last, n, len(res)]]
+    return items
+
+
 def run_query(model, q):
     schema = model.schema
     cname = lambda k: schema['classes'][k]['name']
     if q[0] in ('select-many', 'select-one'):
         ops = build_ops(q[2])
         if q[0] == 'select-many':
-            return [model.idx(i) for i in model.m.select_many(cname(q[1]), *ops)]
+            res = model.m.select_many(cname(q[1]), *ops)
+            out = _ends([model.idx(i) for i in res], res, model)
+            # MetaClass.query(dict): the same as a single equality filter, on the metaclass route
+            if len(q[2]) == 1 and q[2][0][0] == 'where':
+                alt = [model.idx(i) for i in model.m.find_metaclass(cname(q[1])).query(dict((a, v) for a, v in q[2][0][1]))]
+                if alt != out:
+                    out = out + [Sym('metaclass-query-gives'), alt]
+            return out
         r = model.m.select_one(cname(q[1]), *ops)
         return Sym('none') if r is None else model.idx(r)
     if q[0] == 'subtype':
@@ -257,7 +276,7 @@ def run_query(model, q):
                 chain = chain.nav(cname(k), rel, ph)
         res = chain(*build_ops(qops))
         if q[0] == 'nav-many':
-            return [model.idx(i) for i in res]
+            return _ends([model.idx(i) for i in res], res, model)
         return Sym('none') if res is None else model.idx(res)
     except _x.UnknownLinkException:
         return Sym('UnknownLinkException')
